@@ -265,6 +265,8 @@ func (f *frame) exec(ins ssa.Instruction, st *State) {
 				cname = sc.Name()
 			} else if i.Common().IsInvoke() {
 				cname = i.Common().Method.Name()
+			} else if pv, ok := i.Common().Value.(*ssa.Parameter); ok {
+				cname = pv.Name() // a call through a function-valued parameter is recorded under the parameter's name
 			}
 			if cname != "" {
 				if len(rs) == 1 && rs[0].Sort == "Bool" {
@@ -851,7 +853,9 @@ func (f *frame) selectInstr(i *ssa.Select, st *State) {
 		ch := f.val(s.Chan, st)
 		chosen := "(= " + idx + " " + fmt.Sprint(k) + ")"
 		if s.Dir == types.SendOnly {
-			_ = f.val(s.Send, st)
+			sv := f.val(s.Send, st)
+			// the value offered in a send case must satisfy the channel's element invariant
+			f.chanElemInv(sv, st.cond, st, true, i)
 			// a send case on a closed channel is ready and panics when chosen
 			if tags := f.root.safetyTags("send-closed-chan"); tags != nil {
 				a, pos := f.anchor(i)
@@ -861,7 +865,9 @@ func (f *frame) selectInstr(i *ssa.Select, st *State) {
 			e.assume(implies(and(st.cond, chosen), "(not (= "+ch.S+" 0))"))
 		} else {
 			el := s.Chan.Type().Underlying().(*types.Chan).Elem()
-			res = append(res, f.freshVal("selrecv", el, st))
+			rv := f.freshVal("selrecv", el, st)
+			res = append(res, rv)
+			f.chanElemInv(rv, and(st.cond, chosen), st, false, i)
 			e.assume(implies(and(st.cond, chosen), "(not (= "+ch.S+" 0))"))
 		}
 	}
